@@ -26,6 +26,7 @@ MC_Fns == {}
 MC_SOps == {}
 MC_VOps == {}
 MC_Senses == {}
+MC_SingValues == {}
 MC_Want == {"bounds"}
 ASSUME PrintT(<<"BASE", BaseCalls, BaseHeap, AllNames, SliceTab>>)
 ASSUME PrintT(<<"CODE", [k \in DOMAIN MC_Code |-> MC_Code[k]]>>)
